@@ -12,7 +12,7 @@ BUDGET = {"quick": 30, "thorough": 600}
 SHAPES = ["head_at_limit", "head_unterminated", "cl_at_limit", "chunked_at_limit", "cl_huge_digits", "csize_huge_digits",
           "unterminated_chunk_line", "unterminated_trailer", "mutated_message", "garbage", "long_reqline",
           "many_small_headers", "head_at_limit_leading_crlf", "long_value_bad_tail", "long_trailer_bad_tail",
-          "leading_ws_flood", "ows_flood_bad_tail"]
+          "leading_ws_flood", "ows_flood_bad_tail", "reqline_digits_bad_tail"]
 EVIDENCE = {
     "rule": "one connection; input shape drawn from " + ", ".join(SHAPES) + "; max_request_header_size in {16..262144}, "
             "max_request_body_size in {8..1 GiB}, sizes placed at limit-2..limit+2, recv_bytes in {1,7,64,8192}, with and "
@@ -213,6 +213,17 @@ def build(sc):
         exp["anything"] = True
         exp["timed"] = True
         sc["recv_bytes"] = 8192
+    elif shape == "reqline_digits_bad_tail":
+        # a request line whose target is "scheme://" plus thousands of digits, followed by one word too many:
+        # sub-patterns that can all match the digits make a backtracking matcher quadratic
+        n = [8000, 10000][sc["seed"] % 2]
+        fill = [b"1", b"7", b"a1"][(sc["seed"] >> 1) % 3]
+        stream = b"GET x://" + (fill * n)[:n] + b" x x\r\nHost: h\r\n\r\n"
+        sc["recv_bytes"] = 8192
+        exp["may_refuse"] = True
+        exp["statuses"] = {400}
+        exp["anything"] = True
+        exp["timed"] = True
     elif shape == "ows_flood_bad_tail":
         # a field line made of the name, tens of thousands of blanks and one octet that is not allowed (in the head
         # or in a trailer): optional-whitespace matched twice around an empty value makes a backtracking pattern
